@@ -7,7 +7,8 @@ Local Open Scope Z_scope.
 
 (** the harness world: actors 0..2 Cosmos key accounts, 10 the reflect contract (dispatches only for its
     owner, actor 0), 11 the gov account, 20.. Ethereum accounts (29: address recovered from a tampered
-    signature — unknown, unfunded), 99 the sink; no ICA channel exists *)
+    signature — unknown, unfunded; 23: an Ethereum account holding only POOR unibi), 99 the sink (also stands
+    for the contracts a call / creation pays its value to); no ICA channel exists *)
 Definition harness_world : world :=
   {| w_is_eth := fun a => Nat.leb 20 a && Nat.leb a 29;
      w_reflects := fun ctr snd => Nat.eqb ctr 10 && Nat.eqb snd 0;
@@ -17,20 +18,28 @@ Definition harness_world : world :=
      w_ica_allow := fun _ => false |}.
 
 Definition FUND : Z := 1000000000000000.
+Definition POOR : Z := 400000.   (* account 23: a gas prepayment is a large part of what it owns *)
 Definition harness_init : st :=
   {| seqs := [];
-     bals := [(0%nat, FUND); (1%nat, FUND); (2%nat, FUND); (20%nat, FUND); (21%nat, FUND); (22%nat, FUND); (10%nat, 10000000000000)];
+     bals := [(0%nat, FUND); (1%nat, FUND); (2%nat, FUND); (20%nat, FUND); (21%nat, FUND); (22%nat, FUND); (23%nat, POOR);
+              (10%nat, 10000000000000)];
      feecol := 0; grants := []; ran := [] |}.
 
 Definition case := list (tx * txobs).
 
+Definition xinfo_eqb (x y : xinfo) : bool :=
+  match x_kind x, x_kind y with XCall, XCall | XCreate, XCreate => true | _, _ => false end
+  && (x_cap x =? x_cap y) && (x_intr x =? x_intr y) && (x_exec x =? x_exec y)
+  && match x_out x, x_out y with XStop, XStop | XRevert, XRevert | XInvalid, XInvalid => true | _, _ => false end.
+
 Definition leaf_eqb (a b : leaf) : bool :=
   match a, b with
-  | EthTx a1 n1 g1 p1 v1, EthTx a2 n2 g2 p2 v2 => Nat.eqb a1 a2 && Nat.eqb n1 n2 && (g1 =? g2) && (p1 =? p2) && (v1 =? v2)
+  | EthTx a1 n1 g1 p1 v1 x1, EthTx a2 n2 g2 p2 v2 x2 =>
+      Nat.eqb a1 a2 && Nat.eqb n1 n2 && (g1 =? g2) && (p1 =? p2) && (v1 =? v2) && xinfo_eqb x1 x2
   | Send a1, Send a2 => Nat.eqb a1 a2
   | Grant a1 b1 k1, Grant a2 b2 k2 => Nat.eqb a1 a2 && Nat.eqb b1 b2 && mkind_eqb k1 k2
-  | EthTxAs c1 a1 n1 g1 p1 v1, EthTxAs c2 a2 n2 g2 p2 v2 =>
-      Nat.eqb c1 c2 && Nat.eqb a1 a2 && Nat.eqb n1 n2 && (g1 =? g2) && (p1 =? p2) && (v1 =? v2)
+  | EthTxAs c1 a1 n1 g1 p1 v1 x1, EthTxAs c2 a2 n2 g2 p2 v2 x2 =>
+      Nat.eqb c1 c2 && Nat.eqb a1 a2 && Nat.eqb n1 n2 && (g1 =? g2) && (p1 =? p2) && (v1 =? v2) && xinfo_eqb x1 x2
   | _, _ => false
   end.
 
@@ -55,16 +64,45 @@ Definition eth_matches (s s' : st) (e : ethobs) : bool :=
   && (Z.of_nat (seq_of s' (eo_id e)) - Z.of_nat (seq_of s (eo_id e)) =? eo_dseq e)
   && (bal_of s' (eo_id e) - bal_of s (eo_id e) =? eo_dbal e).
 
-Definition obs_matches (x : tx) (s s' : st) (ok : bool) (o : txobs) : bool :=
+(** what the model's msg server reports for the direct Ethereum messages [ms] run from state [s]: gas used, VM error? *)
+Fixpoint exec_trace (c : cfg) (w : world) (ms : list msg) (s : st) : list (Z * bool) :=
+  match ms with
+  | [] => []
+  | m :: r =>
+      match run_msg c w m s with
+      | None => []
+      | Some s1 =>
+          match m with
+          | Leaf (EthTx a _ g _ v x) => let e := eth_exec s a g v x in (r_used e, negb (r_ok e)) :: exec_trace c w r s1
+          | _ => exec_trace c w r s1
+          end
+      end
+  end.
+
+Definition model_exec (c : cfg) (w : world) (s : st) (x : tx) : list (Z * bool) :=
+  match route_tx c (t_ext x) with
+  | RouteEVM => match evm_ante c w s x with Some s1 => exec_trace c w (t_msgs x) s1 | None => [] end
+  | _ => []
+  end.
+
+Fixpoint exec_eqb (a b : list (Z * bool)) : bool :=
+  match a, b with
+  | [], [] => true
+  | (u1, f1) :: a', (u2, f2) :: b' => (u1 =? u2) && Bool.eqb f1 f2 && exec_eqb a' b'
+  | _, _ => false
+  end.
+
+Definition obs_matches (c : cfg) (x : tx) (s s' : st) (ok : bool) (o : txobs) : bool :=
   Bool.eqb ok (o_ok o)
   && leaves_eqb (if ok then new_ran s s' else []) (fired_leaves (t_msgs x) (o_fired o))
+  && exec_eqb (if ok then model_exec c harness_world s x else []) (o_exec o)
   && forallb (eth_matches s s') (o_eth o)
   && (feecol s' - feecol s =? o_dfee o).
 
 Fixpoint replay (c : cfg) (s : st) (l : list (tx * txobs)) : bool :=
   match l with
   | [] => true
-  | (x, o) :: r => let '(s', ok) := deliver c harness_world s x in obs_matches x s s' ok o && replay c s' r
+  | (x, o) :: r => let '(s', ok) := deliver c harness_world s x in obs_matches c x s s' ok o && replay c s' r
   end.
 
 Definition mismatch (c : cfg) (k : case) : bool := negb (replay c harness_init k).
